@@ -29,6 +29,11 @@ func (r *chunkReader) Read(p []byte) (int, error) {
 	if len(r.data) == 0 {
 		return 0, io.EOF
 	}
+	if r.ci < len(r.chunks) && r.chunks[r.ci] == 0 {
+		// an empty read: (0, nil), as io.Reader allows (discouraged, not forbidden)
+		r.ci++
+		return 0, nil
+	}
 	n := len(r.data)
 	if r.ci < len(r.chunks) && r.chunks[r.ci] < n {
 		n = r.chunks[r.ci]
@@ -250,8 +255,8 @@ type recReader struct {
 
 func (r *recReader) Read(p []byte) (int, error) {
 	n, err := r.r.Read(p)
-	if n > 0 {
-		*r.got = append(*r.got, n)
+	if n > 0 || err == nil {
+		*r.got = append(*r.got, n) // empty reads (0, nil) are recorded too: the model is given them as empty chunks
 	}
 	return n, err
 }
